@@ -28,6 +28,12 @@ std::vector<KeyInfo> make_keys() {
       {"", FREE, "free_structural"}, {"EXTNAME", FREE, "free_structural"}, {"BSCALE", FREE, "free_structural"}, {"BZERO", FREE, "free_structural"},
       {"BLANK", FREE, "free_structural"}, {"XTENSION", FREE, "free_structural"}, {"TWO  BLANKS KEY", FREE, "free_long"},
       {"A VERY VERY VERY VERY VERY VERY VERY VERY VERY VERY VERY LONG KEY OF 75 CHARS", FREE, "free_overlong_key"},
+      // (appended later, so that the indices of the keys above - and with them older replays - stay valid)
+      // the HIERARCH convention's own keyword and everything that starts with it: cfitsio strips the prefix on the way
+      // out, so such a key cannot survive a round trip and is reserved
+      {"HIERARCH", REJECT, "reserved"}, {"HIERARCH FOO BAR", REJECT, "reserved_prefix"}, {"HIERARCHY", REJECT, "reserved_prefix"}, {"HIERARCH A LONG KEY", REJECT, "reserved_prefix"},
+      // prefixes of one another, short and long
+      {"LEVEL1", ACCEPT, "short"}, {"LEVEL10", ACCEPT, "short"}, {"LONGKEYNAME", ACCEPT, "long"},
   };
   return k;
 }
